@@ -69,6 +69,11 @@ CLAIMED = {
    text="Every token sequence up to length 5 (6 thorough) over the 22-symbol alphabet of block, clause, end, plain, object and text tokens is parsed and compared with a reference stack-machine acceptor; rejected sources must render nothing; accepted ones must have a render tree equal to the reference tree and must render exactly the markers of the first branches. Random trees to depth 40 and their one-edit neighbours extend the scope.",
    note="Trusted: the 60-line reference acceptor in c06_test.go (its clause-admission table restates the statement). Branch choice when else is not the last clause, and a for with several else clauses, are left to C10/C11 (unspecified here).",
    ref="DESIGN.md 7.C06"),
+ "C07": dict(
+   technique="property-based testing: product of failing-construct kinds x nesting depth x path x starting line with generated layouts; oracle computed from the construction (newline count before the failing token) and a cause-chain walk",
+   text="24 kinds of failing construct are placed at every depth 0..6 of entered blocks, with generated newline layouts and multi-line tags, parsed with and without a path and with starting lines 0/1/37; the error's LineNumber, Path, message and Cause chain are compared with what the construction determines, and Render must not return output with an error.",
+   note="Trusted: the harness's own bookkeeping of where the failing token starts; for unclosed blocks the expected location is the first token the C06 reference acceptor rejects (or the opener at end of input). Message text is only checked for naming the offending filter/tag or carrying the sentinel.",
+   ref="DESIGN.md 7.C07"),
 }
 
 REASON_PENDING = "check not built yet in this snapshot of /verif (planned: see DESIGN.md section 7); nothing is claimed for it"
